@@ -478,6 +478,58 @@ func c9templates() (valid [][2]string, mismatch []string) {
 			add(decl, call, w)
 		}
 	}
+	// builtins and conversions in return position (the forwarding of `return f()` must leave them alone)
+	add("func app(s []int, x int) []int {\n\treturn append(s, x)\n}\n\nfunc app2(s []int, t []int) []int {\n\treturn append(s, t...)\n}\n\nfunc cp(a []int, b []int) int {\n\treturn copy(a, b)\n}\n\nfunc ln(s string) int {\n\treturn len(s)\n}\n\nfunc conv(x float64) int {\n\treturn int(x)\n}\n\nfunc mk(n int) []int {\n\treturn make([]int, n)\n}\n\nfunc str(b []byte) string {\n\treturn string(b)\n}\n\nfunc two(s []int) ([]int, int) {\n\treturn append(s, 1), len(s)\n}\n\n",
+		"\ta := []int{1}\n\tb := app(a, 5)\n\tc := app2(b, []int{7, 8})\n\td := []int{0, 0, 0}\n\tn := cp(d, c)\n\te, m := two(d)\n\tfmt.Println(len(a), b, c, n, d, ln(\"héy\"), conv(2.75), len(mk(3)), str([]byte{104, 105}), e, m)\n",
+		"1 [1 5] [1 5 7 8] 3 [1 5 7] 4 2 3 hi [1 5 7 1] 3\n")
+	// blank parameters at every subset of four positions (each still takes its argument's place)
+	for mask := 0; mask < 16; mask++ {
+		var ps, terms []string
+		names := []string{"a", "b", "c", "d"}
+		typs := []string{"int", "string", "int", "float64"}
+		for i := 0; i < 4; i++ {
+			n := names[i]
+			if mask>>i&1 == 1 {
+				n = "_"
+			} else {
+				switch typs[i] {
+				case "int":
+					terms = append(terms, n)
+				case "string":
+					terms = append(terms, "len("+n+")")
+				default:
+					terms = append(terms, "int("+n+"*2)")
+				}
+			}
+			ps = append(ps, n+" "+typs[i])
+		}
+		sum := "0"
+		if len(terms) > 0 {
+			sum = strings.Join(terms, "*10 + ")
+		}
+		w := 0
+		vals := []int{1, 3, 5, 5} // a=1, len("xyz")=3, c=5, int(2.5*2)=5
+		k := 0
+		for i := 0; i < 4; i++ {
+			if mask>>i&1 == 0 {
+				k++
+			}
+		}
+		j := 0
+		for i := 0; i < 4; i++ {
+			if mask>>i&1 == 0 {
+				j++
+				if j < k {
+					w += vals[i] * 10 // the rendered sum is t1*10 + t2*10 + ... + tk
+				} else {
+					w += vals[i]
+				}
+			}
+		}
+		add(fmt.Sprintf("func f(%s) int {\n\te := 7\n\treturn (%s)*10 + e\n}\n\nfunc (t *T) M(%s) int {\n\treturn (%s)*10 + t.n\n}\n\n", strings.Join(ps, ", "), sum, strings.Join(ps, ", "), sum),
+			"\tt := &T{n: 7}\n\tg := func("+strings.Join(ps, ", ")+") int {\n\t\treturn ("+sum+")*10 + 7\n\t}\n\tfmt.Println(f(1, \"xyz\", 5, 2.5), t.M(1, \"xyz\", 5, 2.5), g(1, \"xyz\", 5, 2.5))\n",
+			fmt.Sprintf("%d %d %d\n", w*10+7, w*10+7, w*10+7))
+	}
 	// goatlang-only: arity and result-count mismatches must be errors
 	mm := func(decls, body string) { mismatch = append(mismatch, hdr+decls+"func Main() {\n"+body+"}\n") }
 	two := "func two(a int, b int) int {\n\treturn a + b\n}\n\n"
